@@ -5,6 +5,7 @@ package main
 // evidence file under assumptions.
 
 import (
+	"os"
 	"fmt"
 	"go/types"
 
@@ -224,6 +225,13 @@ func (e *Exec) appendOp(st *State, fr *Frame, site ssa.Instruction, cc *ssa.Call
 				inWin := And(Eq(App("rkind", SInt, x), IntLit(1)), Eq(App("el_arr", SInt, x), SlArr(res)),
 					Le(Add(SlOff(res), ln), App("el_idx", SInt, x)), Lt(App("el_idx", SInt, x), Add(SlOff(res), newLen)))
 				e.assume(Forall([]*Term{x}, Implies(Not(inWin), Eq(Select(nh, x), Select(old, x))), []*Term{Select(nh, x)}))
+				if srcRef != nil {
+					// the same window, stated over the destination cell (matches any index arithmetic)
+					y := BoundVar("y", SInt)
+					inWinY := Subst(inWin, map[*Term]*Term{x: y})
+					srcY := Select(old, srcRef(Sub(App("el_idx", SInt, y), Add(SlOff(res), ln))))
+					e.assume(Forall([]*Term{y}, Implies(inWinY, Eq(Select(nh, y), srcY)), []*Term{Select(nh, y)}))
+				}
 			} else {
 				panic(unsupported("append of a symbolic number of composite elements"))
 			}
@@ -287,6 +295,9 @@ func (e *Exec) copyOp(st *State, fr *Frame, site ssa.Instruction, cc *ssa.CallCo
 			inWin := And(Eq(App("rkind", SInt, x), IntLit(1)), Eq(App("el_arr", SInt, x), SlArr(dst)),
 				Le(SlOff(dst), App("el_idx", SInt, x)), Lt(App("el_idx", SInt, x), Add(SlOff(dst), nn)))
 			e.assume(Forall([]*Term{x}, Implies(Not(inWin), Eq(Select(nh, x), Select(old, x))), []*Term{Select(nh, x)}))
+			y := BoundVar("y", SInt)
+			inWinY := Subst(inWin, map[*Term]*Term{x: y})
+			e.assume(Forall([]*Term{y}, Implies(inWinY, Eq(Select(nh, y), srcAt(old, lf, Sub(App("el_idx", SInt, y), SlOff(dst))))), []*Term{Select(nh, y)}))
 		} else {
 			panic(unsupported("copy of composite elements"))
 		}
@@ -310,7 +321,15 @@ func init() {
 		k(st, e.freshErr(st, true))
 		return false
 	})
-	for _, n := range []string{"fmt.Sprintf", "fmt.Sprint", "fmt.Println", "fmt.Fprintf", "fmt.Printf", "fmt.Fprintln"} {
+	reg("fmt.Sprintf", "a function of the format and the arguments when all arguments are strings (uninterpreted); an opaque string otherwise; no effect on verified state; does not panic (A-STD)", func(e *Exec, st *State, fr *Frame, site ssa.Instruction, args []Val, k contFn) bool {
+		if r := e.sprintfTerm(st, site, args); r != nil {
+			k(st, r)
+			return false
+		}
+		k(st, e.freshResults(st, site))
+		return false
+	})
+	for _, n := range []string{"fmt.Sprint", "fmt.Println", "fmt.Fprintf", "fmt.Printf", "fmt.Fprintln"} {
 		reg(n, "result is an opaque value; no effect on verified state; does not panic (A-LOG/A-STD)", noEffect(""))
 	}
 	reg("errors.Is", "opaque boolean", noEffect(""))
@@ -371,4 +390,58 @@ func (e *Exec) uninterp(st *State, name string, site ssa.Instruction, args []Val
 		tv[i] = mkRes(i)
 	}
 	return tv
+}
+
+// sprintfTerm: fmt.Sprintf(format, s1..sn) with a literal number of arguments,
+// all of dynamic type string (or a named string type): u!sprintf<n>(format, s1..sn)
+func (e *Exec) sprintfTerm(st *State, site ssa.Instruction, args []Val) (res *Term) {
+	if os.Getenv("GOVC_TRACE") != "" {
+		defer func() { fmt.Fprintf(os.Stderr, "sprintfTerm: %v args=%d\n", res != nil, len(args)) }()
+	}
+	if len(args) != 2 {
+		return nil
+	}
+	sl, ok := args[1].(*Term)
+	if !ok || sl.S != SSlice || !SlLen(sl).IsLit() {
+		return nil
+	}
+	n := int(SlLen(sl).LitVal().Int64())
+	if n == 0 || n > 4 {
+		return nil
+	}
+	ps := site.(ssa.CallInstruction).Common().Signature().Params()
+	it := ps.At(ps.Len() - 1).Type().Underlying().(*types.Slice).Elem()
+	ts := []*Term{e.term(args[0])}
+	for i := 0; i < n; i++ {
+		v, ok := e.load(st, elemRef(sl, IntLit(int64(i))), it).(*Term)
+		if !ok || v.S != SIface {
+			return nil
+		}
+		tid := IfTid(v)
+		if !tid.IsLit() {
+			if os.Getenv("GOVC_TRACE") != "" {
+				fmt.Fprintf(os.Stderr, "sprintfTerm: element %d: %s\n", i, v)
+			}
+			return nil
+		}
+		dt, ok := tidTypes[int(tid.LitVal().Int64())]
+		if !ok {
+			return nil
+		}
+		if b, isB := dt.Underlying().(*types.Basic); !isB || b.Kind() != types.String {
+			return nil
+		}
+		ts = append(ts, IfStr(v))
+	}
+	return sprintfApp(ts)
+}
+
+func sprintfApp(ts []*Term) *Term {
+	name := fmt.Sprintf("|u!sprintf%d|", len(ts)-1)
+	ss := make([]Sort, len(ts))
+	for i := range ss {
+		ss[i] = SStr
+	}
+	declFun(name, SStr, ss...)
+	return App(name, SStr, ts...)
 }
